@@ -1,16 +1,34 @@
 CFG = {
  'files': ['bmtree/newpath.go', 'bmtree/pathlen.go', 'bmtree/pathheight.go', 'bmtree/pathbits.go', 'bmtree/pathstr.go'],
  'go': {'bmtree.NewPath/fields': 'bmtree.NewPath + PathLen/PathHeight/PathBits/PathMask/PathStr',
-        'bmtree.NewPath/order': 'bmtree.NewPath (two nodes of one height)'},
+        'bmtree.NewPath/order': 'bmtree.NewPath (two nodes of one height)',
+        'bmtree.NewPath/raw': 'bmtree.NewPath on arbitrary (searchingBits, length, height)',
+        'bmtree.PathFields/raw': 'bmtree.PathLen/PathHeight/PathBits/PathMask/PathStr on an arbitrary uint64',
+        'bmtree.NewPath/rebuild': 'bmtree.NewPath(PathBits(w), PathLen(w), PathHeight(w)) and ^mask&bits',
+        'bmtree.NewPath/noncanon': 'bmtree.NewPath with search bits below the prefix + PathLen/PathHeight/PathStr',
+        'bmtree.PathStr/order': 'strings.Compare(bmtree.PathStr(w1), bmtree.PathStr(w2)) for two path words of one height',
+        'bmtree.PathStr/parse': 'bmtree.NewPath(strconv.ParseUint(bmtree.PathStr(w), 2) << (h-len), len, h)',
+        'bmtree.NewPath/family': 'bmtree.NewPath for a node, its children, the next node outside its sub-tree and a second node'},
  'rule': 'a node is sent as (h, bit list) and BOTH sides build the word (Go: NewPath(bits<<(h-l), l, h)); '
          'cases = every height<=6 (thorough: 7) x every node x every ordered pair, every height 0..32 x every length x 7 '
          'extreme prefixes, random heights 7..32 (30/31/32 forced in 1/4) with the second node chosen as equal / ancestor / '
          'descendant / spine descendant / diverging after a common prefix / independent, each pair in both orders; '
          'a fields case is non-trivial when the node is not the root, an order case when both nodes are non-root and differ; '
+         'WIDENING: NewPath/raw = lengths -2..66 x heights -2..66 x 3 search words, 19 extreme int32 values for both, random '
+         '(documented range with arbitrary bits / length above height / heights 33..70 / anything), non-trivial when 1<=length<=64 or the call panics; '
+         'PathFields/raw and NewPath/rebuild = every canonical mask (h 0..32 x l 0..h) x canonical / stray-bit / above-height / all-ones bits, '
+         'the same masks with one hole or one extra bit next to the block ends, every canonical mask with ONE hole at every interior position / ONE extra bit at every lower position, all 256 8-bit mask patterns at 4 positions, random words, non-trivial when the mask half is non-zero; '
+         'NewPath/noncanon = heights 0..32 x all lengths x 4 prefixes x 5 extras, non-trivial when extra != 0 and the node is not the root; '
+         'NewPath/family = heights 0..5 (thorough: 6) x all ordered pairs, random heights 6..32 with r chosen as q / descendant / last leaf below q / '
+         'next_out q or below it / ancestor / node just before q / independent, non-trivial unless both are the root; '
+         'PathStr/order = the pairs of NewPath/family through the text of the paths; PathStr/parse = heights 0..32 x all lengths x 8 prefixes, non-trivial for non-root nodes; '
          'distinct = distinct (op,args)',
  'assumptions': ['0 <= h <= 32 and |q| <= h (the uint64 word has 32 bits for the search prefix and 32 for the mask)',
-                 'PathHeight is claimed only for |q| >= 1 (the root\'s word is 0 for every height)'],
- 'trusted': ['fmt.Sprintf("%0*b") modelled definitionally as the zero-padded binary numeral (Model/BmtreePathStr.v: fmt_0b)'],
+                 'PathHeight is claimed only for |q| >= 1 (the root\'s word is 0 for every height)',
+                 'widening, NewPath/raw: searchingBits any uint64, length and height any int32 (a length outside 0..64 panics: bitmap.Mask is a [65]uint64)',
+                 'widening, PathFields/raw and NewPath/rebuild: any uint64'],
+ 'trusted': ['strings.Compare modelled as Lib/Lex.v bytes_cmp, strconv.ParseUint(s, 2, 64) on \'0\'/\'1\' strings as Spec/PathWideSpec.v parse_bin (widening ops PathStr/order, PathStr/parse)',
+             'fmt.Sprintf("%0*b") modelled definitionally as the zero-padded binary numeral (Model/BmtreePathStr.v: fmt_0b)'],
  'explanation': 'Theorems over the model: NewPath builds enc h q; PathLen/PathHeight/PathBits/PathMask/PathStr of enc h q; '
                 'Z.compare (enc h q1) (enc h q2) = bits_cmp q1 q2 (pre-order), with injectivity, ancestor-first and left-before-right '
                 'as corollaries. Correspondence: the six observations and the order of two real words are judged by the spec checker.',
